@@ -148,7 +148,10 @@ def corpus_cases(prop_id, mod=None):
             if f.endswith(".json"):
                 try:
                     c = json.load(open(os.path.join(d, f)))["case"]
-                    out.append(norm(c) if norm else c)
+                    c = norm(c) if norm else c
+                    if mod is not None and hasattr(mod, "model_req"):
+                        mod.model_req(c)          # a corpus entry the property's encoder rejects is skipped
+                    out.append(c)
                 except Exception:
                     pass
     return out
